@@ -264,8 +264,8 @@ pub fn eval(case: &J) -> Outcome {
     out.aux = json!({"tree": tree, "hard": strategy == Strategy::Hard, "synthetic": synth.is_some()});
     out.imp = json!({"table_ok": true, "elim": jelim, "select": scored.iter().map(|s| s.0.clone()).collect::<Vec<_>>(), "chosen_dp": chosen_dp, "chosen_pup": chosen_pup,
                      "dp_ok": if strategy == Strategy::Hard { json!(dp_s != "err") } else { J::Null }, "pup_ok": pup_s != "err"});
-    if dp_s == "panic" { if let Err((loc, msg)) = &dp_res { out.fail(&format!("C18/rules/dp-rewrite-panic/{}", site(loc, msg)), format!("{sql}: {msg}")); } }
-    if pup_s == "panic" { if let Err((loc, msg)) = &pup_res { out.fail(&format!("C18/rules/pup-rewrite-panic/{}", site(loc, msg)), format!("{sql}: {msg}")); } }
+    if dp_s == "panic" { if let Err((loc, msg)) = &dp_res { out.fail(&format!("C18/rules/dp-rewrite-panic/{}{}", site(loc, msg), if has_empty_range(&relation) { "/empty-range" } else { "" }), format!("{sql}: {msg}")); } }
+    if pup_s == "panic" { if let Err((loc, msg)) = &pup_res { out.fail(&format!("C18/rules/pup-rewrite-panic/{}{}", site(loc, msg), if has_empty_range(&relation) { "/empty-range" } else { "" }), format!("{sql}: {msg}")); } }
     out
 }
 
